@@ -41,3 +41,32 @@ Theorem C05_slices_split_odd_refuted : exists (l : list Z) b0 e0 b1 e1,
   split_check (Z.of_nat (length l)) b0 e0 b1 e1 = true /\ (slice1 b0 e0 l, slice1 b1 e1 l) <> split2 l.
 Proof. exact slices_split_odd_refuted. Qed.
 Print Assumptions C05_slices_split_odd_refuted.
+
+(* collapse_slice2_rule, FULL statement (any number of sliced axes, axes not required to be distinct, arbitrary -- also
+   non-constant -- axes/starts/ends): all steps 1 and the output shape equal to the input shape => identity *)
+Theorem C05_collapse_slice2 : forall specs sh t,
+  has_shape sh t = true -> nonneg sh ->
+  (forall k s e, In (k, s, e) specs -> (k < length sh)%nat) ->
+  mshape specs sh = sh ->
+  mslice specs t = t.
+Proof. exact collapse_slice2_sound. Qed.
+Print Assumptions C05_collapse_slice2.
+
+(* the rule-level form: `_same_shape` accepted (constant steps all 1; declared shapes equal without unknown dims) and the
+   declarations are truthful under one binding of the symbol names *)
+Theorem C05_collapse_slice2_rule : forall val ds os st specs sh t,
+  check2 (Some ds) (Some os) (Some st) = true ->
+  has_shape sh t = true -> nonneg sh ->
+  (forall k s e, In (k, s, e) specs -> (k < length sh)%nat) ->
+  denotes val ds sh -> denotes val os (mshape specs sh) ->
+  mslice specs t = t.
+Proof. exact collapse_slice2_rule_sound. Qed.
+Print Assumptions C05_collapse_slice2_rule.
+
+(* unknown dims, differently named dims, a step other than 1, non-constant steps: the side condition is false *)
+Theorem C05_collapse_slice2_near_misses :
+  mslice [(0%nat, 1, INT64_MAX)] (Dim [Sc 1; Sc 2; Sc 3]) <> Dim [Sc 1; Sc 2; Sc 3] /\
+  check2 (Some [DUn]) (Some [DUn]) (Some [1]) = false /\ check2 (Some [DSy 0]) (Some [DSy 1]) (Some [1]) = false /\
+  check2 (Some [DSt 3]) (Some [DSt 3]) (Some [2]) = false /\ check2 (Some [DSt 3]) (Some [DSt 3]) None = false.
+Proof. exact collapse_slice2_unknown_dim_near_miss. Qed.
+Print Assumptions C05_collapse_slice2_near_misses.
